@@ -178,11 +178,12 @@ def reaches_misaligned_optional(sch, w, tname, _seen=None):
 
 
 def alloc_factors(env):
-    """Per top-level type: 64 + the largest sizeof() among the composite types reachable from it.
+    """Per top-level type: 64 + twice the largest sizeof() among the composite types reachable from it.
     A decoder that sizes vectors from element counts bounded by the input allocates at most that per input byte."""
     sch, names = env['sch'], env['names']
     sizes = cppdrv.type_sizes(env['binary'])
-    by_name = {n: sizes.get(i, (0, 0))[0] for i, n in enumerate(names)}
+    by_name = {k: v for k, v in sizes.items() if isinstance(k, str)}
+    by_name.update({n: sizes.get(i, (0, 0))[0] for i, n in enumerate(names) if i in sizes})
     memo = {}
 
     def reach(tname, depth=0):
@@ -196,7 +197,8 @@ def alloc_factors(env):
         best = max([by_name.get(r.name, 64)] + [reach(t, depth + 1) for t in subs])
         memo[r.name] = best
         return best
-    return {n: 64 + reach(n) for n in names}
+    # twice the largest element: a vector that grows inside a long-lived object doubles its capacity
+    return {n: 64 + 2 * reach(n) for n in names}
 
 
 PART_ALIGN_MECH = 'swap-aligns-end-of-part-to-its-own-alignment'
